@@ -552,6 +552,17 @@ func init() {
 			return r
 		}
 	}
+	// --- context.WithTimeout / WithCancel / WithDeadline: a context and a cancel function, neither nil ------------
+	for _, n := range []string{"context.WithTimeout", "context.WithCancel", "context.WithDeadline"} {
+		externalModels[n] = func(fr *Frame, callee *ssa.Function, args []Val, resT types.Type, st *State, reach string, pos token.Pos) Val {
+			c := fr.c
+			r := fr.havocVal(resT, "ctx")
+			for _, v := range r.Tuple {
+				c.smt.assume(not(eq(c.termOf(v), "0")), "context.With*: results are not nil")
+			}
+			return r
+		}
+	}
 	// --- regexp: matching is an uninterpreted pure function of (compiled regexp, string) --------------------------
 	externalModels["regexp.MustCompile"] = func(fr *Frame, callee *ssa.Function, args []Val, resT types.Type, st *State, reach string, pos token.Pos) Val {
 		c := fr.c
